@@ -340,6 +340,25 @@ pub fn s22_request_encode(m: Method, keys: &Keys, salt: &[u8], req: &S22Request)
     (out, cc)
 }
 
+/// Like `s22_request_encode` but with an arbitrary (possibly malformed) variable header - correctly encrypted.
+pub fn s22_request_encode_raw(m: Method, keys: &Keys, salt: &[u8], type_byte: u8, timestamp: u64, var: &[u8], declared_len: u16) -> (Vec<u8>, ChunkCipher) {
+    let mut out = salt.to_vec();
+    for (i, ipsk) in keys.ipsks.iter().enumerate() {
+        let next: &[u8] = if i + 1 < keys.ipsks.len() { &keys.ipsks[i + 1] } else { &keys.psk };
+        let sub = identity_subkey(m, ipsk, salt);
+        let mut block = blake3_hash16(next);
+        aes_ecb_encrypt_block(&sub, &mut block);
+        out.extend_from_slice(&block);
+    }
+    let mut cc = ChunkCipher::new(m.stream_aead(), session_subkey(m, &keys.psk, salt));
+    let mut fixed = vec![type_byte];
+    fixed.extend_from_slice(&timestamp.to_be_bytes());
+    fixed.extend_from_slice(&declared_len.to_be_bytes());
+    out.extend_from_slice(&cc.seal(&fixed, "s22-fixed"));
+    out.extend_from_slice(&cc.seal(var, "s22-var"));
+    (out, cc)
+}
+
 #[derive(Clone, Debug)]
 pub struct S22User {
     pub name: String,
@@ -775,4 +794,50 @@ pub fn s22_udp_client_decode(m: Method, key: &[u8], pkt: &[u8]) -> RefResult<S22
             udp_parse_body(session_id, packet_id, &pt[16..], true)
         }
     }
+}
+
+/// Datagram with an arbitrary (possibly malformed) body, correctly encrypted. `response` selects the server->client key usage.
+pub fn s22_udp_encode_raw(m: Method, keys: &Keys, session_id: u64, packet_id: u64, body: &[u8], xnonce: &[u8; 24], response: bool) -> Vec<u8> {
+    let mut head = [0u8; 16];
+    head[..8].copy_from_slice(&session_id.to_be_bytes());
+    head[8..].copy_from_slice(&packet_id.to_be_bytes());
+    match m {
+        Method::B3Aes128Gcm | Method::B3Aes256Gcm => {
+            let sub = session_subkey(m, &keys.psk, &session_id.to_be_bytes());
+            let ct = seal(udp_aead(m), &sub, &head[4..16], &[], body, "s22-udp");
+            let mut out = Vec::new();
+            let mut enc_head = head;
+            let head_key: &[u8] = if keys.ipsks.is_empty() || response { &keys.psk } else { &keys.ipsks[0] };
+            aes_ecb_encrypt_block(head_key, &mut enc_head);
+            out.extend_from_slice(&enc_head);
+            if !response {
+                for (i, ipsk) in keys.ipsks.iter().enumerate() {
+                    let next: &[u8] = if i + 1 < keys.ipsks.len() { &keys.ipsks[i + 1] } else { &keys.psk };
+                    let mut block = blake3_hash16(next);
+                    for (b, h) in block.iter_mut().zip(head.iter()) {
+                        *b ^= h;
+                    }
+                    aes_ecb_encrypt_block(ipsk, &mut block);
+                    out.extend_from_slice(&block);
+                }
+            }
+            out.extend_from_slice(&ct);
+            out
+        }
+        _ => {
+            let mut pt = head.to_vec();
+            pt.extend_from_slice(body);
+            let mut out = xnonce.to_vec();
+            out.extend_from_slice(&seal(udp_aead(m), &keys.psk, xnonce, &[], &pt, "s22-udp"));
+            out
+        }
+    }
+}
+
+/// SIP004 datagram with an arbitrary plaintext.
+pub fn sip004_udp_encode_raw(m: Method, master: &[u8], salt: &[u8], plaintext: &[u8]) -> Vec<u8> {
+    let sub = ss_subkey(master, salt);
+    let mut out = salt.to_vec();
+    out.extend_from_slice(&seal(m.stream_aead(), &sub, &[0u8; 12], &[], plaintext, "ss-udp"));
+    out
 }
